@@ -321,6 +321,14 @@ func runC12(c *Ctx) {
 			payload, vname = make([]byte, 32+65536), "len-32+65536"
 		}
 		wm := &gen.WSign1{L: gen.WLayer{ProtMap: prot, Unprot: unprot}, Payload: payload, Tagged: tagged}
+		if i%2 == 1 {
+			// the envelope as a peer with another CBOR encoder writes it: map order and integer widths of the
+			// protected header are its own, the byte-string head is wider than needed
+			rs := mon.NewRand(uint64(c.Seed)).Sub(uint64(128000 + i))
+			gen.Scramble(rs, prot, 70)
+			wm.L.ProtWidth = mon.Pick(rs, 2, 3, 5)
+			vname += "+peer-encoding"
+		}
 		signed := payload
 		if signed == nil {
 			signed = []byte("detached content")
